@@ -208,6 +208,11 @@ func newIpfsAdder(ctx context.Context, dgs ClusterDAGService, params *api.AddPar
 	if !ok {
 		return nil, fmt.Errorf("unrecognized hash function: %s", params.HashFun)
 	}
+	if prefix.Version == 0 && hashFunCode != multihash.SHA2_256 {
+		// CIDv0 only supports sha2-256. Like go-ipfs with an unset
+		// version (and like ipfs-cluster-ctl) use CIDv1 then.
+		prefix, _ = merkledag.PrefixForCidVersion(1)
+	}
 	prefix.MhType = hashFunCode
 	prefix.MhLength = -1
 	iadder.CidBuilder = &prefix
